@@ -137,8 +137,21 @@ fn f_nil0<'a>(args: FunctionArgs<'_, 'a>) -> Option<LhsValue<'a>> {
     Some(LhsValue::Bool(true))
 }
 
-pub const SIMPLE_NAMES: [&str; 12] =
-    ["echo", "lower", "len", "first", "opt2", "dropempty", "alen", "addlit", "b2i", "blen", "len2", "nil0"];
+/// `when(cond, x)`: `x` if `cond` is true, nothing otherwise (a comparison as FIRST argument
+/// and a plain field path as a LATER one)
+fn f_when<'a>(args: FunctionArgs<'_, 'a>) -> Option<LhsValue<'a>> {
+    let c = match args.next().expect("when arg 0") {
+        Ok(LhsValue::Bool(b)) => b,
+        Ok(_) => panic!("when: arg 0"),
+        Err(_) => return None,
+    };
+    let x = args.next().expect("when arg 1");
+    assert!(args.next().is_none(), "when: too many args");
+    if c { x.ok() } else { None }
+}
+
+pub const SIMPLE_NAMES: [&str; 13] =
+    ["echo", "lower", "len", "first", "opt2", "dropempty", "alen", "addlit", "b2i", "blen", "len2", "nil0", "when"];
 
 pub fn simple(fname: &str) -> Option<SimpleFunctionDefinition> {
     let bytes_arr = Type::Array(Type::Bytes.into());
@@ -172,6 +185,7 @@ pub fn simple(fname: &str) -> Option<SimpleFunctionDefinition> {
             "b2i" => (vec![p(K::Field, Type::Bool)], vec![], Type::Int, f_b2i),
             "blen" => (vec![p(K::Field, bool_arr)], vec![], Type::Int, f_alen),
             "nil0" => (vec![], vec![], Type::Bool, f_nil0),
+            "when" => (vec![p(K::Field, Type::Bool), p(K::Field, Type::Bytes)], vec![], Type::Bytes, f_when),
             "len2" => (
                 vec![p(K::Field, Type::Bytes)],
                 vec![SimpleFunctionOptParam { arg_kind: K::Both, default_value: LhsValue::Bytes(Vec::new().into()) }],
